@@ -460,6 +460,46 @@ fn special_rules(ctx: &Ctx) {
             }
         }
     }
+    // Display impls that go through write_char, and formatter padding with a multi-byte fill
+    for t in ["", "a", "é", "€uro", "😀", "aé€😀", "ééééééééééééééééééééééééééééééééééééééééééééééééééééééééééééééé"] {
+        for w in [Val::DisplayChars(t.to_string()), Val::Some(Box::new(Val::DisplayChars(t.to_string()))), Val::Tuple(vec![Val::U8(1), Val::DisplayChars(t.to_string()), Val::U8(2)])] {
+            m += 1;
+            let want = spec_encode(&w).unwrap();
+            match trap(|| postcard::to_allocvec(&AsData(&w))) {
+                Ok(Ok(b)) if b == want => {}
+                other => ctx.violation("collect-str", format!("write_char Display: got {:?} want {}", other.map(|r| r.map(|b| hex(&b))), hex(&want)), m, json!({"value": w})),
+            }
+        }
+    }
+    struct Padded(&'static str);
+    impl std::fmt::Display for Padded {
+        fn fmt(&self, f: &mut std::fmt::Formatter<'_>) -> std::fmt::Result {
+            write!(f, "{:→>8}|{:é<5}|{:^7}", self.0, self.0, self.0)
+        }
+    }
+    struct CollectStr<T: std::fmt::Display>(T);
+    impl<T: std::fmt::Display> serde::Serialize for CollectStr<T> {
+        fn serialize<S: serde::Serializer>(&self, s: S) -> Result<S::Ok, S::Error> {
+            s.collect_str(&self.0)
+        }
+    }
+    for t in ["", "a", "é", "abcdefghij"] {
+        m += 1;
+        let text = Padded(t).to_string();
+        let want = spec_encode(&Val::Str(text.clone())).unwrap();
+        match trap(|| postcard::to_allocvec(&CollectStr(Padded(t)))) {
+            Ok(Ok(b)) if b == want => {}
+            other => ctx.violation("collect-str", format!("padded Display {:?}: got {:?} want {}", text, other.map(|r| r.map(|b| hex(&b))), hex(&want)), m, json!({"text": text})),
+        }
+    }
+    for c in vmodel::shape::char_boundaries() {
+        m += 1;
+        let want = spec_encode(&Val::Str(c.to_string())).unwrap();
+        match trap(|| postcard::to_allocvec(&CollectStr(c))) {
+            Ok(Ok(b)) if b == want => {}
+            other => ctx.violation("collect-str", format!("collect_str(char {:?}): got {:?} want {}", c, other.map(|r| r.map(|b| hex(&b))), hex(&want)), m, json!({"char": c.to_string()})),
+        }
+    }
     ctx.class("collect-str", m);
     ctx.add_evals(n * 2 + m);
     ctx.add_nontrivial(n + m);
